@@ -203,6 +203,40 @@ def run_alignfn(ctx) -> RuleResult:
                 continue
             lst = value.args[0]
             verdict = _ordered_images(ctx, module, lst, vararg)
+            if verdict is None and isinstance(lst, (ast.List,)) and not lst.elts and isinstance(raw, ast.Call) and raw.args \
+                    and isinstance(raw.args[0], ast.Name):
+                # accumulate form:  out = []; for poly in <ordered>: out.append(f(poly))
+                records = last.muts.get(raw.args[0].id, ())
+                appended = [rec for rec in records if isinstance(rec[1], ast.Call) and isinstance(rec[1].func, ast.Attribute)
+                            and rec[1].func.attr == "append" and rec[1].args]
+                has_append_loop = any(
+                    isinstance(sub, ast.Call) and isinstance(sub.func, ast.Attribute) and sub.func.attr == "append"
+                    and isinstance(sub.func.value, ast.Name) and sub.func.value.id == raw.args[0].id
+                    for loop in ast.walk(func) if isinstance(loop, ast.For) for sub in ast.walk(loop))
+                if not records and has_append_loop:
+                    continue  # the path on which the loop body never ran: nothing to judge
+                if appended and len(appended) == len(records):
+                    verdict = True
+                    for _target, call in appended:
+                        elems = [n for n in walk_shared(call.args[0]) if is_S(n, "elem")]
+                        sources = {_txt(n.args[0]) for n in elems}
+                        ordered = False
+                        for n in elems:
+                            if _ordered_images(ctx, module, n.args[0], vararg) is True:
+                                ordered = True
+                        if not ordered:
+                            verdict = None
+                    # an append under a condition would drop arguments
+                    loops = [n for n in ast.walk(func) if isinstance(n, ast.For)]
+                    for loop in loops:
+                        for sub in ast.walk(loop):
+                            if isinstance(sub, ast.Call) and isinstance(sub.func, ast.Attribute) and sub.func.attr == "append" \
+                                    and isinstance(sub.func.value, ast.Name) and sub.func.value.id == raw.args[0].id:
+                                cur = sub
+                                while cur is not loop:
+                                    cur = cur._parent
+                                    if isinstance(cur, ast.If):
+                                        verdict = False
             if verdict is None:
                 raise AnalysisError(f"{name}: unrecognised construction of the returned list: {_txt(lst)[:100]}")
             result.ob(f"{name}: images listed in argument order [{len(trace)} decisions]", verdict, module.loc(last.orig), _txt(lst)[:80])
@@ -238,7 +272,7 @@ def run_alignfn(ctx) -> RuleResult:
     for path in ctx.paths_auto(module, func):
         current = None
         for step in path:
-            if step.kind == "iter" and isinstance(step.node, ast.For) and "enumerate(" in U(step.node.iter):
+            if step.kind == "iter" and isinstance(step.node, ast.For) and _rebuild_loop(step.node):
                 if current is not None and not current[1]:
                     _report_skip(result, module, current[0], path)
                 current = [step, False]
@@ -252,6 +286,11 @@ def run_alignfn(ctx) -> RuleResult:
                 if isinstance(target, ast.Subscript) and isinstance(step.node.value, ast.Call) \
                         and "from_attributes" in U(step.node.value.func):
                     current[1] = True
+            elif current is not None and step.kind == "stmt" and isinstance(step.node, ast.Expr) \
+                    and isinstance(step.node.value, ast.Call) and isinstance(step.node.value.func, ast.Attribute) \
+                    and step.node.value.func.attr == "append" and step.node.value.args \
+                    and isinstance(step.node.value.args[0], ast.Call) and "from_attributes" in U(step.node.value.args[0].func):
+                current[1] = True
     result.ob("align_exponents rebuilds every operand on every path", not any(
         f.construct == "align_exponents: operand not rebuilt" for f in result.findings), module.loc(func), f"{n_iter} iterations examined")
     if n_iter == 0:
@@ -339,6 +378,15 @@ def run_alignfn(ctx) -> RuleResult:
                                f"align_polynomials returns {text[:80]}"))
     result.floor = 10
     return result
+
+
+def _rebuild_loop(loop: ast.For) -> bool:
+    """The loop of align_exponents that rebuilds the operands (index-assignment or append form)."""
+    if "enumerate(" in U(loop.iter):
+        return True
+    return any(isinstance(n, ast.Call) and isinstance(n.func, ast.Attribute) and n.func.attr == "append"
+               and n.args and isinstance(n.args[0], ast.Call) and "from_attributes" in U(n.args[0].func)
+               for n in ast.walk(loop))
 
 
 def _ordered_images(ctx, module, expr, vararg):
